@@ -32,6 +32,8 @@ type c20Trip struct {
 	inPlanned     bool
 }
 
+const protoRequires = "From Coq Require Import ZArith List.\nFrom Flap Require Import Model.TripHistory Model.Engine Run.RunTH Run.RunEngine Run.RunProtocol.\nImport ListNotations.\nOpen Scope Z_scope."
+
 func genC20Protocol(rng *Rng, workdir string, stress bool) *engSession {
 	return genProtocol(rng, workdir, stress, "C08", -1)
 }
@@ -535,7 +537,10 @@ func runC20(o *Out, rng *Rng, tier string, replay string) {
 		o.AddCase(List(s.coq), s.stat["c20_promises_made"] > 3 && s.stat["c20_checkins_accepted"] > 3, s.ops)
 		s.close()
 	}
-	engFlush(o, "C20")
+	// replayed by Run/RunProtocol.v: results compared with the model AND every operation decided against
+	// the discipline of the whole-history theorem (per traveller, on the model's state before it)
+	o.FlushCases("C20", protoRequires, "list (list eop)", "ep_mismatches 0%nat", 16)
+	o.sum.Notes = append(o.sum.Notes, "every operation of every protocol history is decided inside Coq against the discipline of C20_engine_history_every_checkin_accepted (conformsb on the model's state before the operation, one clock per traveller); an empty mismatch list means every generated history is conforming, i.e. the whole-history theorem applies to each of them (up to the sanity of the predictor's answers, pred_ok, which is not decidable)")
 	simBase := filepath.Join(o.dir, "sims")
 	type job struct{ sp *simSpec }
 	var specs []*simSpec
